@@ -25,7 +25,15 @@ class StageIO(ScriptIO):
         self.armed = True
         self.loaded = 0
 
-    def load_next(self):
+    def load_next(self, buf=None):
+        # tagged stages ({"tag": first bytes of the line the stage reacts to, "st": pieces}): reactions to lines that
+        # are never sent (the code under test gave up early) are skipped
+        while self.stages and isinstance(self.stages[0], dict):
+            tag = self.stages[0]["tag"]
+            if buf is None or bytes(buf).startswith(tag[:len(buf)]) and tag.startswith(bytes(buf)[:len(tag)]):
+                self.stages[0] = self.stages[0]["st"]
+                break
+            self.stages.pop(0)
         if self.stages:
             st = self.stages.pop(0)
             now = self.clock.t
@@ -52,11 +60,12 @@ class StageIO(ScriptIO):
                     self.pend.append([self.clock.t, data])
             return k
         if self.armed:
-            self.load_next()
+            self.load_next(buf)
             self.armed = False
         before = len(self.written)
         k = super().write(buf)
-        if b"\r" in bytes(self.written[before:]):
+        w = bytes(self.written[before:])
+        if b"\r" in w or b"\x04" in w:        # a line was completed, or ^D (end of input) was typed
             self.armed = True
         return k
 
